@@ -56,7 +56,7 @@ pub const INERT_NAMES: &[(&str, &str)] = &[
 
 pub const NAME_ALPHABET: &[char] = &[
     'a', 'b', 'c', 'x', 'y', 'z', 'A', 'B', 'T', 'S', '0', '1', '9', ' ', '-', '_', '.', ':', '#',
-    '(', ')', '~', '\u{e9}', '\u{ef}', '\u{fc}', '\u{df}', '\u{416}', '\u{8a2d}', '\u{8a08}',
+    '(', ')', '~', '&', '<', '>', '*', '|', '`', '[', ']', '"', '\\', '\u{e9}', '\u{ef}', '\u{fc}', '\u{df}', '\u{416}', '\u{8a2d}', '\u{8a08}',
     '\u{66f8}', '\u{1f600}', '\u{301}',
 ];
 
